@@ -390,6 +390,8 @@ def rule_parked(ctx, rep):
     pat.require(keep, "parks-empty-handed instances vanished")
 
 
+META["explanation"] += " " + 'Also (rounds 10-11): wake-up order of the helper / completion futex (reset before FUTEX_WAKE), and after the caller is put back online rcu_barrier reaches no mutex lock, poll or futex wait.'
+
 RULES = [
     ("C04.cs", rule_cs),
     ("C04.cs", rule_listcs),
